@@ -68,7 +68,9 @@ type caseList struct {
 	blocks map[string]int64
 }
 
-func casesFor(n, t uint8, thorough bool) caseList {
+func casesFor(n, t uint8, thorough bool) caseList { return casesOf(n, t, thorough, true) }
+
+func casesOf(n, t uint8, thorough, withHistories bool) caseList {
 	cl := caseList{blocks: map[string]int64{}}
 	seen := map[qcase]bool{}
 	add := func(block string, c qcase) {
@@ -136,6 +138,12 @@ func casesFor(n, t uint8, thorough bool) caseList {
 		}
 	}
 	for v := uint8(0); v < nv; v++ {
+		// spelling of the name and header flags (RD, CD, AD): alone
+		add("C:header-dimension-alone", qcase{ver: v, cas: 1})
+		for b := uint8(1); b < uint8(len(flagSets)); b++ {
+			add("C:header-dimension-alone", qcase{ver: v, bits: b})
+		}
+		add("C:header-dimension-alone", qcase{ver: v, cas: 1, bits: uint8(len(flagSets) - 1)})
 		if thorough || reduced {
 			full(v)
 		}
@@ -198,6 +206,61 @@ func casesFor(n, t uint8, thorough bool) caseList {
 			}
 		}
 	}
+	// P: two-query histories on a handler with the response cache enabled: a preceding query with the
+	// same cache key (name up to spelling, type, class, client) and other values in the dimensions the
+	// key ignores, then the case; both judged by the statement, each against its own query
+	if withHistories && !thorough {
+		for pre := uint8(1); pre < uint8(len(firsts)); pre++ {
+			if firsts[pre].thoroughOnly {
+				continue
+			}
+			for cas := uint8(0); cas < 2; cas++ {
+				for tc := uint8(0); tc < 2; tc++ {
+					add("P:preceding-query*spelling*version-size-do-transport", qcase{pre: pre, cas: cas, tcp: tc})
+				}
+				for s := uint8(0); s < ns; s++ {
+					for d := uint8(0); d < 2; d++ {
+						for tc := uint8(0); tc < 2; tc++ {
+							add("P:preceding-query*spelling*version-size-do-transport", qcase{pre: pre, cas: cas, ver: 1, size: s, do: d, tcp: tc})
+						}
+					}
+				}
+				add("P:preceding-query*spelling*version-size-do-transport", qcase{pre: pre, cas: cas, ver: 2})
+			}
+			// the other dimensions the cache key ignores (or, for a client-subnet option, may turn into
+			// another key): each value alone, with the toggled spelling, without and with EDNS
+			for v := uint8(0); v < 2; v++ {
+				for op := uint8(1); op < uint8(len(opcodes)); op++ {
+					add("P:preceding-query*header-or-option-value", qcase{pre: pre, cas: 1, ver: v, op: op})
+				}
+				add("P:preceding-query*header-or-option-value", qcase{pre: pre, cas: 1, ver: v, qd: 1})
+				for b := uint8(1); b < uint8(len(flagSets)); b++ {
+					add("P:preceding-query*header-or-option-value", qcase{pre: pre, cas: 1, ver: v, bits: b})
+				}
+				for ex := uint8(1); ex < uint8(len(extras)); ex++ {
+					add("P:preceding-query*header-or-option-value", qcase{pre: pre, cas: 1, ver: v, extra: ex})
+				}
+			}
+			for _, id := range []string{"ecs1-24", "ecs2-56", "cookie8", "unknown", "ecs+cookie+nsid+padding+unknown"} {
+				add("P:preceding-query*header-or-option-value", qcase{pre: pre, cas: 1, ver: 1, opts: optIdx(id)})
+			}
+		}
+	}
+	if withHistories && thorough {
+		// thorough: every direct single-query case of the QUICK factoring x both spellings x every preceding query
+		for _, c := range casesOf(n, t, false, false).list {
+			if c.via != 0 {
+				continue
+			}
+			for pre := uint8(1); pre < uint8(len(firsts)); pre++ {
+				for cas := uint8(0); cas < 2; cas++ {
+					x := c
+					x.pre, x.cas = pre, cas
+					add("P:preceding-query*spelling*quick-tier-single-query-case", x)
+				}
+			}
+		}
+	}
 	// M: through fbserver's serveMux, question count 0, 1, 2
 	for v := uint8(0); v < nv; v++ {
 		for qd := uint8(0); qd < uint8(len(qdcounts)); qd++ {
@@ -216,7 +279,7 @@ type stats struct {
 	cases, reached, rejected, calls, minCalls                int64
 	replies, noReply, nontrivial, positive, truncated        int64
 	tcOversize, twins, failing, attributed, minimised        int64
-	firstOfMany                                              int64
+	firstOfMany, pairs, pairHits, pairFirstCached            int64
 	maxUDP, maxTCP                                           int64
 	rcodes, blocks, kinds, rejectedOpts, perDB, nontrivPerDB map[string]int64
 }
@@ -241,6 +304,9 @@ func (s *stats) merge(o *stats) {
 	s.tcOversize += o.tcOversize
 	s.twins += o.twins
 	s.firstOfMany += o.firstOfMany
+	s.pairs += o.pairs
+	s.pairHits += o.pairHits
+	s.pairFirstCached += o.pairFirstCached
 	s.failing += o.failing
 	s.attributed += o.attributed
 	s.minimised += o.minimised
@@ -274,6 +340,16 @@ func replayOf(e *env, text string, c qcase) map[string]interface{} {
 	if w, err := c.wire(0); err == nil {
 		rp["query_wire_hex"] = hex.EncodeToString(w)
 	}
+	if c.pre > 0 {
+		rp["cache"] = "enabled, empty before the preceding query"
+		rp["preceding_query"] = c.first().String()
+		if m := c.first().parse(); m != nil {
+			m.Id = c.firstID()
+			if w, err := m.Pack(); err == nil {
+				rp["preceding_query_wire_hex"] = hex.EncodeToString(w)
+			}
+		}
+	}
 	if len(text) <= 4096 {
 		rp["data"] = text
 	} else {
@@ -302,6 +378,15 @@ func runUnit(r *vlib.Run, idx int, u unit, text string, twins []int, st *stats) 
 		}
 		loc.reached++
 		loc.twins += int64(obs.twinRan)
+		if c.pre > 0 {
+			loc.pairs++
+			if obs.cacheHit {
+				loc.pairHits++
+			}
+			if obs.firstCached {
+				loc.pairFirstCached++
+			}
+		}
 		if obs.replied {
 			loc.replies++
 			loc.rcodes[rcodeName(obs.rcode)]++
@@ -387,7 +472,7 @@ func main() {
 		if err != nil {
 			vlib.Infra("open %s on %s: %v", d.name, b, err)
 		}
-		envs[i] = newEnv(d.name, b, h)
+		envs[i] = newEnv(d.name, b, h, p)
 	})
 	twins := []int{1}
 	if r.Thorough() {
@@ -420,7 +505,7 @@ func main() {
 		samples[i] = runUnit(r, i, units[i], texts[units[i].e.db], twins, st)
 	})
 	for _, e := range envs {
-		e.h.Close()
+		e.close()
 	}
 	clean() // Finish exits the process: deferred calls do not run
 	for i := 0; i < len(samples); i += 97 {
@@ -442,6 +527,9 @@ func main() {
 	r.Set("replies_truncated", st.truncated)
 	r.Set("replies_tc_set_but_still_over_limit", st.tcOversize)
 	r.Set("replies_to_two_question_queries_echoing_only_the_first", st.firstOfMany)
+	r.Set("two_query_histories", st.pairs)
+	r.Set("two_query_histories_first_query_cached", st.pairFirstCached)
+	r.Set("two_query_histories_second_served_from_cache", st.pairHits)
 	r.Set("largest_udp_reply", st.maxUDP)
 	r.Set("largest_tcp_reply", st.maxTCP)
 	r.Set("reply_rcodes", st.rcodes)
@@ -455,17 +543,18 @@ func main() {
 	r.Set("handler_calls_spent_minimising", st.minCalls)
 	r.Set("databases", len(dbs))
 	r.Set("backends", len(dnsfix.Backends))
-	r.Set("alphabet", map[string]int{"names": len(names), "types": len(types), "classes": len(classes), "opcodes": len(opcodes), "qdcounts": len(qdcounts), "edns_versions": len(versions), "udp_sizes": len(udpSizes), "option_lists": len(optLists), "extras": len(extras), "clients": len(clients), "transports": 2, "entry_points": 2})
-	factoring := "quick: header values alone on the full core, their full product and the pairs (D) only on the reduced core {root,apex,deleg,big,name255}x{A,DS,ANY}; the client address not inside that full product; option lists with 2 (size,DO,transport) combinations for version 0 and 1 for unsupported versions"
+	r.Set("alphabet", map[string]int{"names": len(names), "types": len(types), "classes": len(classes), "opcodes": len(opcodes), "qdcounts": len(qdcounts), "edns_versions": len(versions), "udp_sizes": len(udpSizes), "option_lists": len(optLists), "extras": len(extras), "clients": len(clients), "transports": 2, "entry_points": 2, "name_spellings": len(spellings), "header_flag_sets": len(flagSets), "preceding_queries": len(firsts) - 1})
+	factoring := "quick: header values alone on the full core, their full product and the pairs (D) only on the reduced core {root,apex,deleg,big,name255}x{A,DS,ANY}; the client address not inside that full product; option lists with 2 (size,DO,transport) combinations for version 0 and 1 for unsupported versions; P with 3 preceding queries x both spellings x {no EDNS, v0 x every size x DO, v1} x transport, plus every opcode / second question / flag set / extra RR / 5 option lists alone"
 	if r.Thorough() {
-		factoring = "thorough: header group fully crossed with the core; option lists with every (size,DO,transport); pairs (D) on the full core with v0 and v1; twin option both in front of and behind the option list"
+		factoring = "thorough: header group fully crossed with the core; option lists with every (size,DO,transport); pairs (D) on the full core with v0 and v1; twin option both in front of and behind the option list; P = every direct case of the quick factoring x both spellings x 4 preceding queries"
 	}
-	r.Set("rule", "structured product. CORE = name x type x EDNS version x database x backend, always a FULL product ("+fmt.Sprint(len(names)*len(types)*len(versions)*len(dbs)*len(dnsfix.Backends))+" cells). Each core cell is crossed with: A = advertised size x DO x transport (full); B = option list x (size,DO,transport); C = header group opcode x qdcount x class x extra-additional-RR x client address; D = every header-group value paired with every size/DO/transport/option value; M = the same message through fbserver's serveMux with qdcount 0/1/2 x transport. Factored (not fully crossed) because they cannot interact in the code: the header group (opcode, second question, class, extra RR; they only flow into SetReply and the class field of synthesised RRs) against the size group and the option lists (which only flow into OPT handling, location lookup and Scrub/Truncate) - covered pairwise by D. "+factoring+". Every message is packed and unpacked by miekg/dns first; messages it refuses never reach a handler and are counted separately. states = distinct (database, backend, query) cases; transitions = calls of the real ServeDNS (cases + metamorphic twins); evaluations = oracle applications (one per call + one per metamorphic comparison); nontrivial = cases with a reply other than REFUSED. Failing cases are simplified one dimension at a time towards the first value of each dimension until no single simplification keeps the same kind of failure; fingerprints name that local minimum.")
+	r.Set("rule", "structured product. CORE = name x type x EDNS version x database x backend, always a FULL product ("+fmt.Sprint(len(names)*len(types)*len(versions)*len(dbs)*len(dnsfix.Backends))+" cells). Each core cell is crossed with: A = advertised size x DO x transport (full); B = option list x (size,DO,transport); C = header group opcode x qdcount x class x extra-additional-RR x client address; D = every header-group value paired with every size/DO/transport/option value; M = the same message through fbserver's serveMux with qdcount 0/1/2 x transport; P = TWO-QUERY HISTORIES on a second real handler over the same files with the response cache ENABLED and emptied first: a preceding query ("+fmt.Sprint(len(firsts)-1)+" shapes: plain UDP; toggled spelling + EDNS 4096 + DO + cookie + TCP + RD/CD/AD; EDNS 512 UDP + RD; NOTIFY + second question + extra RR) with the case's name (as listed), type, class and client address - i.e. its cache key - and a different message id, then the case itself in either spelling (name as listed / case of every letter toggled); both replies are judged by the same rules, each against its own query, and a disagreement is reported under after-cached-query/ (needs the preceding query), cache-enabled/ or cache-enabled-first/ (needs only the cache switched on) when it does not occur without the cache. Spelling and the header flags RD/CD/AD are also single-query dimensions (alone, block C). Factored (not fully crossed) because they cannot interact in the code: the header group (opcode, second question, class, extra RR; they only flow into SetReply and the class field of synthesised RRs) against the size group and the option lists (which only flow into OPT handling, location lookup and Scrub/Truncate) - covered pairwise by D. "+factoring+". Every message is packed and unpacked by miekg/dns first; messages it refuses never reach a handler and are counted separately. states = distinct (database, backend, query) cases; transitions = calls of the real ServeDNS (cases + metamorphic twins); evaluations = oracle applications (one per call + one per metamorphic comparison); nontrivial = single-query cases with a reply other than REFUSED + two-query histories whose second query was served from the cache (hit counter of the handler's statistics sink). Failing cases are simplified one dimension at a time towards the first value of each dimension until no single simplification keeps the same kind of failure; fingerprints name that local minimum.")
 	pprof.StopCPUProfile()
 	r.Assume = []string{
 		"miekg/dns Pack/Unpack define wire validity (the real server uses the same parser); bytes miekg cannot represent (compression pointers in questions, trailing garbage, TSIG) are outside the space",
 		"the package's random source is replaced by a deterministic one that never draws 0 and maxAnswer is 200, so the content of a reply is a function of the query; record order inside a section is not compared",
-		"response cache disabled (C12 covers it); handler configuration otherwise default (AlwaysCompress off)",
+		"single-query blocks: response cache disabled; block P: cache enabled (LRU 64 entries, never full: emptied before every history), histories of exactly two queries with the same cache key - longer histories, reloads and equality of cached and uncached answers are C12's; entry expiry (1000 s) is not reached; handler configuration otherwise default (AlwaysCompress off)",
+		"the preceding queries never carry a client-subnet option and share the case's client address, so they differ from the case in location only when the case itself carries a client-subnet option (then the second query is a cache miss, counted as trivial)",
 		"a UDP reply larger than the client's limit WITH TC set is reported under its own kind (size/udp-over-limit-despite-tc): 'truncated' is read as 'cut down to the size'; size/udp is the literal reading (over the limit and TC clear)",
 		"question section equality is exact (name bytes, type, class, count), except that a query with two questions may be answered with its first question alone in the question section: the repository's own TestDNSDBMultipleQuestions documents that as the intended baseline (counted in replies_to_two_question_queries_echoing_only_the_first)",
 		"a message with no question (only reachable through the mux, which answers SERVFAIL) is not required to get BADVERS for an unsupported EDNS version",
@@ -515,7 +604,7 @@ func replay(path string) {
 			if err != nil {
 				vlib.Infra("open: %v", err)
 			}
-			e := newEnv(d.name, be, h)
+			e := newEnv(d.name, be, h, p)
 			c := rf.Replay.Case.qcase()
 			var obs observation
 			var calls int64
@@ -534,7 +623,7 @@ func replay(path string) {
 					still = true
 				}
 			}
-			h.Close()
+			e.close()
 			clean()
 			if still {
 				fmt.Println("REPRODUCED")
@@ -548,13 +637,13 @@ func replay(path string) {
 }
 
 type qcaseJSON struct {
-	Name, Typ, Ver, Size, Do, TCP, Opts, Op, Qd, Class, Extra, Client, Via uint8
+	Name, Typ, Ver, Size, Do, TCP, Opts, Op, Qd, Class, Extra, Client, Via, Cas, Bits, Pre uint8
 }
 
 func (j qcaseJSON) qcase() qcase {
-	return qcase{name: j.Name, typ: j.Typ, ver: j.Ver, size: j.Size, do: j.Do, tcp: j.TCP, opts: j.Opts, op: j.Op, qd: j.Qd, class: j.Class, extra: j.Extra, client: j.Client, via: j.Via}
+	return qcase{name: j.Name, typ: j.Typ, ver: j.Ver, size: j.Size, do: j.Do, tcp: j.TCP, opts: j.Opts, op: j.Op, qd: j.Qd, class: j.Class, extra: j.Extra, client: j.Client, via: j.Via, cas: j.Cas, bits: j.Bits, pre: j.Pre}
 }
 
 func (c qcase) MarshalJSON() ([]byte, error) {
-	return json.Marshal(qcaseJSON{c.name, c.typ, c.ver, c.size, c.do, c.tcp, c.opts, c.op, c.qd, c.class, c.extra, c.client, c.via})
+	return json.Marshal(qcaseJSON{c.name, c.typ, c.ver, c.size, c.do, c.tcp, c.opts, c.op, c.qd, c.class, c.extra, c.client, c.via, c.cas, c.bits, c.pre})
 }
